@@ -124,6 +124,104 @@ let () = register "ctype" (fun args ->
     Printf.sprintf "%d %d %d %d %d" (b isalpha) (b ispunct) (b isspace) (b iscntrl) (int_of_z (toupper z))
   | _ -> "BADARGS")
 
+(* ---- C01/C10: weave layer fed with implementation-observed tasks and raw paths ------------ *)
+let zl_of_csv s = List.map z_of_int (ints_of_csv s)
+let bytes_list_of_csv s = if s = "" then [] else List.map (fun h -> if h = "-" then [] else bytes_of_hexstr h) (String.split_on_char ',' s)
+let field pref tok =
+  let n = String.length pref in
+  if String.length tok >= n && String.sub tok 0 n = pref then Some (String.sub tok n (String.length tok - n)) else None
+let find_field pref toks =
+  let rec go = function [] -> "" | t :: r -> (match field pref t with Some v -> v | None -> go r) in go toks
+
+type node = { na : int; nb : int; nc : int; nla : int; nlb : int; raw : int list; ops : int list; p0 : int;
+              mem : int list; nrows : z list list }
+
+let parse_node sec =
+  match split_ws sec with
+  | "NODE" :: a :: b :: c :: la :: lb :: rest ->
+    { na = int_of_string a; nb = int_of_string b; nc = int_of_string c; nla = int_of_string la; nlb = int_of_string lb;
+      raw = ints_of_csv (find_field "raw=" rest); ops = ints_of_csv (find_field "ops=" rest);
+      p0 = int_of_string (find_field "p0=" rest); mem = ints_of_csv (find_field "mem=" rest);
+      nrows = bytes_list_of_csv (find_field "rows=" rest) }
+  | _ -> failwith "bad NODE section"
+
+let weave_check (inputs : z list list) (impl : string) : string =
+  let secs = String.split_on_char '|' impl in
+  match secs with
+  | [] -> "impl=EMPTY"
+  | head :: evs ->
+    (match split_ws head with
+     | "OK" :: _alnlen :: rest ->
+       let rows = bytes_list_of_csv (match rest with [r] -> r | _ -> "") in
+       let sorted = ref [] and nodes = ref [] in
+       List.iter (fun sec ->
+           match split_ws sec with
+           | "SORTED" :: [l] -> sorted := ints_of_csv l
+           | "NODE" :: _ -> nodes := parse_node sec :: !nodes
+           | _ -> ()) evs;
+       let nodes = List.rev !nodes and sorted = !sorted in
+       let inputs_a = Array.of_list inputs in
+       let seqs_sorted = List.map (fun r -> inputs_a.(r)) sorted in
+       let lens = List.map (fun s -> nat_of_int (List.length s)) seqs_sorted in
+       (* rank -> position among final rows *)
+       let ranks_sorted = List.sort compare sorted in
+       let pos_of_rank r = let rec go i = function [] -> -1 | x :: t -> if x = r then i else go (i + 1) t in go 0 ranks_sorted in
+       let rows_a = Array.of_list rows in
+       let final_sorted = List.map (fun r -> let p = pos_of_rank r in if p >= 0 && p < Array.length rows_a then rows_a.(p) else []) sorted in
+       let out = Buffer.create 64 in
+       let add k v = Buffer.add_string out (Printf.sprintf "%s=%s " k v) in
+       (* 1. path expansion, 2. wf premise *)
+       let exp_bad = ref "" and wf_bad = ref "" in
+       List.iter (fun nd ->
+           (match add_gap_info (z_of_int nd.nlb) (List.map z_of_int nd.raw) with
+            | Some o -> let o' = List.map int_of_z o in
+              if (o' <> nd.ops || nd.p0 <> List.length o') && !exp_bad = "" then exp_bad := string_of_int nd.nc
+            | None -> if !exp_bad = "" then exp_bad := string_of_int nd.nc ^ "(model:fault)");
+           if not (kpath_wfb (z_of_int nd.nlb) (List.map z_of_int nd.raw)) && !wf_bad = "" then wf_bad := string_of_int nd.nc) nodes;
+       add "expand" (if !exp_bad = "" then "ok" else "DIFF@" ^ !exp_bad);
+       add "wf" (if !wf_bad = "" then "ok" else "VIOLATED@" ^ !wf_bad);
+       (* 3. weave per merge *)
+       let st = ref (init_wstate lens) in
+       let seqs_arr = Array.of_list seqs_sorted in
+       let weave_bad = ref "" and fit_bad = ref "" in
+       List.iter (fun nd ->
+           let sip = Array.of_list !st.w_sip and gaps = Array.of_list !st.w_gaps in
+           let width x = match (if x < Array.length sip then sip.(x) else []) with
+             | i :: _ -> let i = int_of_nat i in List.length (expand gaps.(i) seqs_arr.(i))
+             | [] -> -1 in
+           let ks = List.map (fun o -> op_kind (z_of_int o)) nd.ops in
+           if not (ops_fitb ks (nat_of_int (width nd.na)) (nat_of_int (width nd.nb))) && !fit_bad = "" then fit_bad := string_of_int nd.nc;
+           st := merge_step !st (nat_of_int nd.na) (nat_of_int nd.nb) (nat_of_int nd.nc) (List.map z_of_int nd.ops);
+           let sip' = Array.of_list !st.w_sip and gaps' = Array.of_list !st.w_gaps in
+           let mem' = List.map int_of_nat (if nd.nc < Array.length sip' then sip'.(nd.nc) else []) in
+           let rows' = List.map (fun i -> expand gaps'.(i) seqs_arr.(i)) mem' in
+           if (mem' <> nd.mem || rows' <> nd.nrows) && !weave_bad = "" then weave_bad := string_of_int nd.nc) nodes;
+       add "fit" (if !fit_bad = "" then "ok" else "VIOLATED@" ^ !fit_bad);
+       add "weave" (if !weave_bad = "" then "ok" else "DIFF@" ^ !weave_bad);
+       (* 4. final rows *)
+       let model_final = final_rows !st seqs_sorted in
+       add "final" (if model_final = final_sorted then "ok" else "DIFF");
+       (* 5./6. property predicates on the implementation's own output *)
+       add "integrity" (if integrity_b inputs rows then "ok" else "VIOLATED");
+       let c10_bad = ref "" in
+       List.iter (fun nd ->
+           if not (subalignment_b final_sorted (List.map nat_of_int nd.mem, nd.nrows)) && !c10_bad = "" then c10_bad := string_of_int nd.nc) nodes;
+       add "c10" (if !c10_bad = "" then "ok" else "VIOLATED@" ^ !c10_bad);
+       add "nodes" (string_of_int (List.length nodes));
+       String.trim (Buffer.contents out)
+     | "FAIL" :: _ -> "impl=FAIL"
+     | _ -> "impl=" ^ (if String.length head > 40 then String.sub head 0 40 else head))
+
+let () = register "integrity" (fun args ->
+  match args with
+  | [inputs; rows] -> if integrity_b (bytes_list_of_csv inputs) (bytes_list_of_csv rows) then "ok" else "VIOLATED"
+  | _ -> "BADARGS")
+
+let () = register "weave_check" (fun args ->
+  match args with
+  | inputs :: rest -> weave_check (bytes_list_of_csv inputs) (String.concat " " rest)
+  | _ -> "BADARGS")
+
 let main () =
   try
     while true do
